@@ -165,6 +165,7 @@ type Engine struct {
 	ifaceContracts map[string]*Contract // assumed contracts on interface methods / bodyless externals, by full name
 	globals   []*GlobalInv
 	specPaths int
+	capVal    map[string]Val
 	boundedLoops map[string]bool
 	globalNames map[int64]string
 	opaqueT   map[string]bool // spec functions kept uninterpreted while the current target is verified
